@@ -18,7 +18,7 @@ import z3
 
 from .engine import ProgExc, Unsupported
 from .models import EXTRA_METHODS, EXTRA_MODELS, BUILTIN_MODELS
-from .values import Func, Iter, NArr, NativeMethod, PDict, PList, SArr, Sym, fresh, fresh_name, frac, kind_of, next_uid, to_z3, zint
+from .values import Func, Iter, NArr, NativeMethod, Opaque, PDict, PList, SArr, Sym, fresh, fresh_name, frac, kind_of, next_uid, to_z3, zint
 
 R = z3.RealSort()
 _OPS = {ast.Mult: operator.mul, ast.Add: operator.add, ast.Sub: operator.sub, ast.Div: operator.truediv}
@@ -994,6 +994,153 @@ def _np_add(eng, args, kwargs):
     return eng.binop(ast.Add(), vals[0], vals[1])
 
 
+# ------------------------------------------------------------------ frames as values, partially consumed iterators (itertools.islice / chain)
+FRAME_NEWAXIS0 = z3.Function("frame_with_leading_axis", z3.IntSort(), z3.IntSort())  # ghost: frame[np.newaxis], the (1, X, Y) block holding the frame
+
+
+def _frame_getitem(eng, base, args, kwargs):
+    (idx,) = args
+    key = idx if isinstance(idx, tuple) else (idx,)
+    if len(key) in (1, 2) and key[0] is None and all(k is Ellipsis for k in key[1:]):
+        used(eng, "frame[np.newaxis]: the array with a leading axis of extent 1 and the same pixels (a ghost function of the frame: frame_with_leading_axis)")
+        return Opaque(FRAME_NEWAXIS0(base.z), FRAME_PROTO)
+    raise Unsupported("subscript form on a frame reference")
+
+
+FRAME_PROTO = {"__getitem__": _frame_getitem}
+
+
+def frame_list(eng, lst):
+    """loop-contract `types` promotion of a list of frames: references that can be subscripted with np.newaxis"""
+    lst.promote("ref")
+    lst.proto = FRAME_PROTO
+
+
+class SuffixSeq:
+    """what is left of a sequence of symbolic length after its first `start` entries were taken (start: concrete)"""
+
+    def __init__(self, base, start):
+        self.base, self.start = base, start
+
+    def __pyvc_sequence__(self, eng):
+        from .models import as_sequence
+
+        n, getter = as_sequence(eng, self.base)
+        nz = n.z if isinstance(n, Sym) else zint(n)
+        left = z3.simplify(z3.If(nz >= self.start, nz - self.start, z3.IntVal(0)))
+        return (left.as_long() if z3.is_int_value(left) else left), (lambda k: getter(Sym(z3.simplify(to_z3(k, "int") + self.start), "int")))
+
+    def __pyvc_snapshot__(self, memo):
+        return self
+
+
+def _islice(eng, args, kwargs):
+    """itertools.islice(iterator, stop) with a concrete stop: LAZY like the real one - the entries are taken from the iterator when the
+    result is consumed by list(...) (the only consumer modelled); the path forks on how many entries the iterator still has (0 .. stop)"""
+    if kwargs or len(args) != 2 or isinstance(args[1], bool) or not isinstance(args[1], int) or args[1] < 0:
+        raise Unsupported("itertools.islice call form (only islice(iterator, <constant stop>))")
+    it, stop = args
+    if not isinstance(it, Iter):
+        raise Unsupported("itertools.islice of something that is not a one-shot iterator")
+    used(eng, "itertools.islice(iterator, stop): the first min(stop, remaining) entries, in order, taken from the iterator when the result is listed; the iterator keeps the rest")
+
+    def take(e, recv):
+        from .models import as_sequence
+
+        if it.consumed:
+            return PList([])
+        seq = it.seq
+        if isinstance(seq, PList) and seq.items is not None:
+            head, it.seq = seq.items[:stop], PList(seq.items[stop:])
+            return PList(head)
+        n, getter = as_sequence(e, seq)
+        nz = n.z if isinstance(n, Sym) else zint(n)
+        taken = []
+        for j in range(stop):
+            if not e.branch(e.sbool(nz > j)):
+                break
+            taken.append(getter(Sym(z3.IntVal(j), "int")))
+        it.seq = SuffixSeq(seq, len(taken))
+        return PList(taken)
+
+    return Opaque(z3.Const(fresh_name("islice"), z3.IntSort()), {"__list__": take})
+
+
+class ChainSeq:
+    """itertools.chain(a, b, ...): LAZY - lengths and entries of the parts are read when the chain is iterated (by a `for` loop that is
+    cut by invariants); parts: concrete lists, symbolic lists, one-shot iterators (consumed by the iteration)"""
+
+    def __init__(self, parts):
+        self.parts = parts
+
+    def __pyvc_sequence__(self, eng):
+        from .models import as_sequence
+
+        segs, total = [], z3.IntVal(0)
+        for p in self.parts:
+            if isinstance(p, PList) and p.items is not None:
+                items = list(p.items)
+                n, g = len(items), (lambda k, _it=items: _pick(_it, k))
+            elif isinstance(p, Iter) and p.consumed:
+                continue
+            else:
+                n, g = as_sequence(eng, p)
+                if isinstance(p, Iter):
+                    p.consumed = True  # the loop runs the chain to its end
+            nz = n.z if isinstance(n, Sym) else zint(n)
+            segs.append((total, nz, g))
+            total = z3.simplify(total + nz)
+
+        def getter(k):
+            kz = to_z3(k, "int")
+            proto, out = None, None
+            for off, nz, g in reversed(segs):
+                v = g(Sym(z3.simplify(kz - off), "int"))
+                if isinstance(v, Opaque):
+                    proto, vz = v.proto, v.z
+                elif isinstance(v, Sym) and v.kind in ("ref", "int"):
+                    vz = v.z
+                else:
+                    raise Unsupported("itertools.chain over entries that are neither references nor integers")
+                out = vz if out is None else z3.If(kz < off + nz, vz, out)
+            if out is None:
+                return None
+            out = z3.simplify(out)
+            return Opaque(out, proto) if proto is not None else Sym(out, "ref")
+
+        return (total.as_long() if z3.is_int_value(total) else total), getter
+
+    def __pyvc_snapshot__(self, memo):
+        return self
+
+
+def _pick(items, k):
+    """entry k (symbolic) of a short concrete list of references"""
+    if not items:
+        return Sym(z3.IntVal(0), "ref")
+    kz = to_z3(k, "int")
+    proto = next((x.proto for x in items if isinstance(x, Opaque)), None)
+    if any(not (isinstance(x, Opaque) or (isinstance(x, Sym) and x.kind in ("ref", "int"))) for x in items):
+        raise Unsupported("itertools.chain over entries that are neither references nor integers")
+    z = items[-1].z
+    for j in range(len(items) - 2, -1, -1):
+        z = z3.If(kz == j, items[j].z, z)
+    return Opaque(z, proto) if proto is not None else Sym(z, "ref")
+
+
+def _chain(stock):
+    def model(eng, args, kwargs):
+        if kwargs:
+            raise Unsupported("itertools.chain call form")
+        symbolic = any((isinstance(a, Iter) and not (isinstance(a.seq, PList) and a.seq.items is not None)) or (isinstance(a, PList) and a.items is None) or isinstance(a, SuffixSeq) for a in args)
+        if not symbolic:
+            return stock(eng, args, kwargs)
+        used(eng, "itertools.chain(a, b, ...) = the entries of a, then of b, ... in order (lazy: read when the chain is iterated; one-shot iterators among the parts are consumed by it)")
+        return ChainSeq(list(args))
+
+    return model
+
+
 class MemoFn:
     """functools.cache(f) / functools.lru_cache(maxsize=m)(f): a callable that returns what f returns (a call runs f's body; that repeated
     calls with one argument are answered from the cache is invisible as long as f is a function of its arguments and of state that does not
@@ -1043,6 +1190,10 @@ def _install_io():
 
     EXTRA_MODELS[np.add] = _np_add
     EXTRA_MODELS[functools.cache] = _functools_cache
+    import itertools
+
+    EXTRA_MODELS[itertools.islice] = _islice
+    EXTRA_MODELS[itertools.chain] = _chain(BUILTIN_MODELS[itertools.chain])
     EXTRA_MODELS[functools.lru_cache] = _functools_lru_cache
 
     from . import narr
